@@ -15,19 +15,20 @@ import (
 
 // Sess drives one server instance and writes one trace line per operation.
 type Sess struct {
-	prop string
-	kind string
-	st   *Store
-	h    http.Handler
-	vids []string // version ids seen, in order of first appearance
-	opts SessOpts
-	nops int
+	prop  string
+	kind  string
+	st    *Store
+	h     http.Handler
+	vids  []string // version ids seen, in order of first appearance
+	opts  SessOpts
+	nops  int
+	walks int // paginated walks so far (every third one opens with an empty marker parameter)
 
 	// while capturing, operations are recorded instead of written (concurrent rounds emit them afterwards)
-	mute           bool // dry runs: nothing is written to the trace
+	mute           bool   // dry runs: nothing is written to the trace
 	listExtra      string // query parameters added to every object listing (e.g. encoding-type=url, which the server ignores)
-	everEnabled    bool // versioning was enabled at some point: listed version ids are real ids from then on
-	wireNullMarker bool // ListVersions: send version-id-marker=null where the trace says "no version id marker"
+	everEnabled    bool   // versioning was enabled at some point: listed version ids are real ids from then on
+	wireNullMarker bool   // ListVersions: send version-id-marker=null where the trace says "no version id marker"
 	capMu          sync.Mutex
 	capturing      bool
 	captured       []capRec
